@@ -471,14 +471,14 @@ struct stack_harness : sim::Harness
             else if ( x < ( adv_focus ? 62 : 50 ) )
             {
                 const std::int64_t kind = rng.chance( adv_focus ? 45 : 80 ) ? 0 : rng.range( 1, 9 );
-                std::int64_t interval = rng.chance( 60 ) ? rng.range( 0, 40 ) : rng.range( 0, 399 );
+                std::int64_t interval = rng.chance( 60 ) ? rng.range( 0, 40 ) : rng.chance( 85 ) ? rng.range( 0, 399 ) : rng.range( 400, 3194 );
                 std::int64_t latency = rng.chance( 50 ) ? 0 : rng.range( 0, 7 );
                 if ( property == "C23" && rng.chance( 70 ) ) latency = rng.range( 1, 7 );
                 // long sleeps: up to the 499 events the specification permits (short intervals: the supervision timeout limits the product)
                 std::int64_t sca_and_drift = rng.range( 0, 39 );
                 // (a central that grants a long latency has an accurate clock: with 500 ppm on both sides the widening reaches half the interval after 499 events)
                 if ( rng.chance( 12 ) ) { latency = rng.chance( 50 ) ? rng.range( 8, 499 ) : rng.range( 450, 499 ); if ( rng.chance( 70 ) ) interval = rng.range( 0, 6 ); if ( rng.chance( 85 ) ) sca_and_drift = rng.range( 5, 7 ) + 8 * rng.range( 0, 4 ); }
-                p.ops.push_back( sim::Op( stack::op_connect, { kind, device_id(), interval, latency, rng.range( 0, 599 ), rng.range( 0, 7 ), rng.range( 0, 7 ), rng.range( 0, 11 ), rng.chance( 50 ) ? 0 : rng.range( 1, 100000 ),
+                p.ops.push_back( sim::Op( stack::op_connect, { kind, device_id(), interval, latency, rng.chance( 85 ) ? rng.range( 0, 599 ) : rng.range( 600, 3190 ), rng.range( 0, 7 ), rng.chance( 85 ) ? rng.range( 0, 7 ) : rng.range( 0, 3200 ), rng.range( 0, 11 ), rng.chance( 50 ) ? 0 : rng.range( 1, 100000 ),
                                                                sca_and_drift, rng.range( 0, 999 ), rng.range( 0, 3 ) } ) );
                 connect_planned = true;
             }
